@@ -1,7 +1,7 @@
 (* C08 - Outgoing session ids count 1..0xFFFF per destination; reboot flag clears on wrap.
    nth_id k = ((k-1) mod 65535) + 1, nth_flag k = (k <=? 65535)  (Spec/C08Spec.v). *)
 From PS Require Import Lib.Base Lib.Struct Generated.Consts Model.SdTypes Model.Config Model.Session Model.Someip Model.SdCodec
-  Model.StackTypes Model.Stack Spec.C08Spec Proofs.C07Proofs Proofs.StackOpsProofs.
+  Model.StackTypes Model.Stack Spec.C08Spec Proofs.C07Proofs Proofs.StackOpsProofs Generated.LogicGen Proofs.GenEquiv.
 
 (* for every interleaving of destinations, the k-th id handed out for a destination depends on k alone *)
 Theorem C08_cycle : forall ds, run_assign sess_init ds = spec_assign [] ds.
@@ -32,6 +32,10 @@ Example C08_wrap : map (fun k => (nth_flag k, nth_id k)) [65534; 65535; 65536; 1
   = [(true, 65534); (true, 65535); (false, 1); (false, 65535); (false, 1)].
 Proof. reflexivity. Qed.
 
+(* tie to the source: the model function IS the Python function, translated from the source text on every run *)
+Theorem C08_model_is_the_translated_source : forall s d, gen_assign_outgoing s d = assign_outgoing s d.
+Proof. exact gen_assign_outgoing_eq. Qed.
+
 Print Assumptions C08_cycle.
 Print Assumptions C08_never_zero.
 Print Assumptions C08_first_is_one.
@@ -40,3 +44,4 @@ Print Assumptions C08_empty_send.
 Print Assumptions C08_send_takes_one_id.
 Print Assumptions C08_send_ids_cycle.
 Print Assumptions C08_id_and_flag_on_the_wire.
+Print Assumptions C08_model_is_the_translated_source.
